@@ -66,6 +66,9 @@ RULE = ("grammar of HTTP/1.x responses (status lines, header sets, CL/chunked/cl
         "cut point} x {streaming_callback, buffered}; non-trivial = the header block parses and a body phase or "
         "a framing rejection is reached; distinct by canonical JSON")
 EXHAUSTIVE = {"quick": False, "thorough": False}
+CLAUSE_CAVEATS = [
+    'Spec.readAll shares parseHead / readBody / gzipRewrite with the model: framing corner cases (1xx bodies, 204 with Content-Length, CL+TE) have no model-independent characterisation beyond statusLine_iff; agreement under gzip holds outside the recorded gz-trail known finding',
+]
 CLAUSES = {
     "status line grammar": "statusLine_iff",
     "delivered in any segmentation": "feed_append (two segments = their concatenation, from any machine state; via step_append: every "
